@@ -190,7 +190,9 @@ json_strings = st.one_of(
     st.text(max_size=8),
     # JSON's own words and the escape character as whole tokens (a string may end in a backslash, contain NaN / Infinity / null ...)
     st.lists(st.sampled_from(['NaN', 'Infinity', '-Infinity', 'null', 'true', 'false', '\\', '"', '\\"', ' ', 'a', ',', ':', '[', ']', '{', '}', '\\\\', '\\u0041', '\\n',
-                              'undefined', '-', '1e5']), max_size=6).map(''.join),
+                              'undefined', '-', '1e5', '/*', '*/', '//', '/**/', '#', '<!--', '-->', '*', '/']), max_size=6).map(''.join),
+    # very many brackets inside one string (nesting counted on the raw text would see a deep document)
+    st.sampled_from(['[' * 2500, '{' * 2100 + '[' * 300, '[{' * 1300, ']' * 2500 + '[' * 2500, '"[' * 1100]),
     st.builds(lambda n, t: repr(n) + t, gv.finite_doubles, st.sampled_from(['', ',', ']', '}', '.0', '.0,', '.00]'])),
 )
 json_numbers = st.one_of(gv.finite_doubles, gv.finite_doubles, st.integers(-(2 ** 53) + 1, 2 ** 53 - 1), st.integers(-100, 100),
